@@ -9,6 +9,7 @@ import (
 	"context"
 	"fmt"
 	"io"
+	"runtime/debug"
 	"sort"
 	"strings"
 
@@ -101,7 +102,16 @@ func c15GenDocs(r *Rng, ptype string, large bool) []c15Doc {
 	if valid {
 		con = Pick(r, []string{"none", "none", "in", "in", "in", "out"})
 	}
-	mk := func(gvk string) c15Doc { return c15Doc{T: "meta", GVK: gvk, Name: "pkg-" + ptype, Con: con} }
+	nmeta := 0
+	mk := func(gvk string) c15Doc {
+		nmeta++
+		c := con
+		if nmeta > 1 {
+			// a later meta object need not carry what the first one has
+			c = Pick(r, []string{"none", "none", "in", "out", "bad"})
+		}
+		return c15Doc{T: "meta", GVK: gvk, Name: "pkg-" + ptype, Con: c}
+	}
 	x := r.Intn(100)
 	if valid {
 		x = r.Intn(80)
@@ -139,6 +149,18 @@ func c15GenDocs(r *Rng, ptype string, large bool) []c15Doc {
 		}
 		docs = append(docs, d)
 	}
+	// duplicates: the same object twice; the same metadata.name under another kind / API version
+	if n > 0 && r.Chance(1, 8) {
+		src := docs[len(docs)-1-r.Intn(n)]
+		if src.T == "obj" {
+			d := src
+			if r.Bool() {
+				d.GVK = Pick(r, k.allowed[ptype])
+			}
+			d.Pad = 0
+			docs = append(docs, d)
+		}
+	}
 	if r.Chance(1, 6) {
 		docs = append(docs, c15Doc{T: "empty"})
 	}
@@ -160,25 +182,149 @@ func c15GenDocs(r *Rng, ptype string, large bool) []c15Doc {
 	return docs
 }
 
-func c15GenRev(r *Rng, idx int) c15Rev {
-	ptype := Pick(r, c15PTypes)
+var c15ImgShapes = []string{"annotated", "annotated", "annotated", "annotated", "annotated", "multi", "multi", "multi", "plain", "plain", "plain", "plain2", "plain2", "plain2", "twoann", "nofile", "baselast", "otherann", "many", "toomany"}
+
+func c15GenRev(r *Rng, idx int, ptype string) c15Rev {
 	large := r.Chance(1, 10)
 	rev := c15Rev{
 		PType:  ptype,
 		Name:   fmt.Sprintf("pkg%c-%s-%06x", 'a'+idx, ptype, r.Intn(1<<24)),
 		Docs:   c15GenDocs(r, ptype, large),
 		Shape:  r.Intn(8),
-		Img:    Pick(r, []string{"annotated", "annotated", "annotated", "annotated", "annotated", "multi", "multi", "multi", "plain", "plain", "plain", "plain2", "plain2", "plain2", "twoann", "nofile"}),
+		Img:    Pick(r, c15ImgShapes),
 		Never:  r.Chance(1, 12),
 		Ignore: r.Chance(1, 5),
 		Pre:    Pick(r, []string{"cold", "cold", "cold", "cold", "cold", "warm", "warm", "warm", "nohdr", "hdr"}),
 	}
-	rev.Source = fmt.Sprintf("xpkg.example.org/acme/%s:v1.%d.0", rev.Name[:4], r.Intn(10))
+	if (rev.Img == "many" || rev.Img == "toomany") && !r.Chance(1, 6) {
+		rev.Img = "annotated" // images of 256 / 257 layers are costly to build: keep them rare
+	}
+	rev.Source = fmt.Sprintf("%s/acme/%s:v1.%d.0", c15Registry, rev.Name[:4], r.Intn(10))
 	if r.Chance(1, 8) {
 		c15AlignStream(r, &rev)
 	}
 	return rev
 }
+
+// c15GenRevs: 1-3 revisions. Later revisions are, with high probability, of the package type
+// of the first one (they go through the same long-lived reconciler) and often revisions of
+// the SAME package (same repository, another tag or a digest; a repository / revision name
+// that extends the first one's) with different contents; or a twin: a revision of another
+// package type with the same name and image.
+func c15GenRevs(r *Rng) []c15Rev {
+	n := Pick(r, []int{1, 1, 1, 2, 2, 2, 3})
+	p0 := Pick(r, c15PTypes)
+	revs := []c15Rev{c15GenRev(r, 0, p0)}
+	for i := 1; i < n; i++ {
+		pt := p0
+		if r.Chance(1, 4) {
+			pt = Pick(r, c15PTypes)
+		}
+		if pt != p0 && r.Chance(1, 3) {
+			// twin: same revision name (the cache id), same image, other package type
+			dup := false
+			for _, o := range revs {
+				dup = dup || (o.Name == revs[0].Name && o.PType == pt)
+			}
+			if !dup {
+				t := revs[0]
+				t.PType = pt
+				t.Pre = "cold"
+				revs = append(revs, t)
+				continue
+			}
+		}
+		rev := c15GenRev(r, i, pt)
+		b := revs[r.Intn(len(revs))]
+		switch r.Intn(8) {
+		case 0, 1, 2: // another version of the same package
+			rev.Name = fmt.Sprintf("%s-%s-%06x", b.Name[:4], pt, r.Intn(1<<24))
+			repo := strings.SplitN(strings.SplitN(b.Source, "@", 2)[0], ":", 2)[0]
+			rev.Source = fmt.Sprintf("%s:v2.%d.0", repo, r.Intn(10))
+			if r.Chance(1, 4) {
+				rev.Source = fmt.Sprintf("%s@sha256:%064x", repo, r.U64())
+			}
+			if r.Bool() {
+				// an upgrade: the contents of the other version plus / minus an object, or with a defect
+				rev.Docs = append([]c15Doc{}, b.Docs...)
+				if len(rev.Docs) > 1 && r.Bool() {
+					rev.Docs = rev.Docs[:len(rev.Docs)-1]
+				} else {
+					g := Pick(r, c15GetKinds().obj)
+					if r.Bool() {
+						g = Pick(r, c15GetKinds().allowed[pt])
+					}
+					rev.Docs = append(rev.Docs, c15Doc{T: "obj", GVK: g, Name: c15ObjName(g, len(rev.Docs))})
+				}
+			}
+		case 3: // names related by prefix: revision name and repository extend the other's
+			rev.Name = b.Name + fmt.Sprintf("%x", r.Intn(16))
+			repo := strings.SplitN(strings.SplitN(b.Source, "@", 2)[0], ":", 2)[0]
+			rev.Source = fmt.Sprintf("%s-extra:v1.%d.0", repo, r.Intn(10))
+		case 4: // same path in another registry; the default registry left out
+			if r.Bool() {
+				rev.Source = strings.Replace(rev.Source, c15Registry+"/", "registry.example.com/", 1)
+			} else {
+				rev.Source = strings.TrimPrefix(rev.Source, c15Registry+"/")
+			}
+		}
+		// sources must be pairwise different as references (one reference, one image)
+		for _, o := range revs {
+			if c15RefName(o.Source) == c15RefName(rev.Source) || o.Name == rev.Name || c15CachePath(o.Source) == c15CachePath(rev.Source) {
+				rev = c15GenRev(r, i, pt)
+				break
+			}
+		}
+		revs = append(revs, rev)
+	}
+	return revs
+}
+
+func c15IsTwin(a, b *c15Rev) bool { return a.Name == b.Name && a.PType != b.PType }
+
+// c15GenCfgs: 0-3 ImageConfigs (sorted by name) whose prefixes are cut out of the sources of
+// the scenario at and off path boundaries, plus prefixes that match nothing, the empty prefix
+// and a prefix longer than the source.
+func c15GenCfgs(r *Rng, revs []c15Rev) []c15Cfg {
+	n := Pick(r, []int{0, 1, 1, 2, 2, 3})
+	cfgs := []c15Cfg{}
+	for i := 0; i < n; i++ {
+		c := c15Cfg{Name: fmt.Sprintf("cfg-%c", 'a'+i), Verif: Pick(r, []string{"cosign", "cosign", "cosign", "none", "nocosign"}), OK: r.Bool()}
+		c.Pull = c.Verif == "none" || r.Chance(1, 4)
+		for j, m := 0, r.Range(1, 3); j < m; j++ {
+			src := Pick(r, revs).Source
+			var p string
+			switch r.Intn(10) {
+			case 0:
+				p = ""
+			case 1:
+				p = src + "x"
+			case 2:
+				p = "xpkg.example.org/other/"
+			case 3:
+				p = src
+			case 4, 5: // a path boundary
+				cuts := []int{}
+				for k, ch := range src {
+					if ch == '/' || ch == ':' || ch == '@' {
+						cuts = append(cuts, k, k+1)
+					}
+				}
+				if len(cuts) == 0 {
+					cuts = []int{len(src)}
+				}
+				p = src[:Pick(r, cuts)]
+			default:
+				p = src[:r.Range(1, len(src))]
+			}
+			c.Prefixes = append(c.Prefixes, p)
+		}
+		cfgs = append(cfgs, c)
+	}
+	return cfgs
+}
+
+var c15ErrClasses = []string{"conflict", "conflict", "notfound", "alreadyexists", "invalid", "forbidden", "temporary", "deadline", "err"}
 
 // c15AlignStream pads an object so that the stream ends shortly behind a multiple of
 // the 4096-byte reads of the parser's bufio.Reader (a short last chunk).
@@ -254,40 +400,67 @@ func c15GenFaults(r *Rng, rev *c15Rev) c15Faults {
 	}
 	f.Get = r.Chance(1, 12)
 	f.Del = r.Chance(1, 6)
-	if r.Chance(1, 12) {
-		f.Upd = Pick(r, []string{"conflict", "err"})
+	if r.Chance(1, 10) {
+		f.Upd = Pick(r, c15ErrClasses)
 	}
-	f.Est = r.Chance(1, 20)
+	if r.Chance(1, 12) {
+		f.Est = true
+		f.EstC = Pick(r, []string{"", "", "conflict", "conflict", "alreadyexists", "temporary", "deadline", "forbidden"})
+	}
+	if r.Chance(1, 20) {
+		f.GetE = Pick(r, []string{"miss", "err"})
+	}
+	if r.Chance(1, 12) {
+		f.Fin = Pick(r, c15ErrClasses)
+	}
+	if r.Chance(1, 10) {
+		f.Stat = Pick(r, c15ErrClasses)
+	}
+	if r.Chance(1, 7) {
+		f.Env = Pick(r, []string{"touch", "wipe", "wipe", "recreate", "recreate", "flip"})
+	}
 	return f
 }
 
 func c15Gen(r *Rng) c15Scn {
 	scn := c15Scn{Kind: "rev", Feature: r.Chance(1, 4)}
-	n := 1
-	if r.Chance(1, 3) {
-		n = 2
-	}
-	for i := 0; i < n; i++ {
-		scn.Revs = append(scn.Revs, c15GenRev(r, i))
+	scn.Revs = c15GenRevs(r)
+	n := len(scn.Revs)
+	scn.Cfgs = []c15Cfg{}
+	if scn.Feature || r.Chance(1, 6) {
+		scn.Cfgs = c15GenCfgs(r, scn.Revs)
 	}
 	ns := r.Range(1, 4)
+	if n > 1 {
+		ns = r.Range(2, 6) // several revisions through the same controllers: longer histories
+	}
 	for i := 0; i < ns; i++ {
 		s := c15Step{K: "rec", R: r.Intn(n), Active: !r.Chance(1, 7)}
+		s.F.Read = -1
 		sigP := 1
 		if scn.Feature {
 			sigP = 4
 		}
-		if r.Chance(sigP, 10) {
+		switch {
+		case scn.Feature && r.Chance(1, 12):
+			s.K = "cfg"
+			s.R = 0
+			s.Cfgs = c15GenCfgs(r, scn.Revs)
+		case r.Chance(sigP, 10):
 			s.K = "sig"
-			s.SigCfg = Pick(r, []string{"none", "some", "some", "err"})
-			s.SigOK = r.Bool()
-			s.F.Read = -1
-		} else {
+			if r.Chance(1, 8) {
+				s.SigCfg = "err"
+			}
+			if r.Chance(1, 12) {
+				s.F.GetE = Pick(r, []string{"miss", "err"})
+			}
+			if r.Chance(1, 10) {
+				s.F.Stat = Pick(r, c15ErrClasses)
+			}
+		default:
 			// most steps are fault free so that histories make progress
 			if r.Chance(3, 5) {
 				s.F = c15GenFaults(r, &scn.Revs[s.R])
-			} else {
-				s.F.Read = -1
 			}
 			s.Deleted = r.Chance(1, 25)
 		}
@@ -296,6 +469,7 @@ func c15Gen(r *Rng) c15Scn {
 	// a stream of two 4096-byte reads whose first read ends inside a long scalar, pulled while the
 	// cache write fails early: what the parser holds when the write error comes back is a partial line
 	if r.Chance(1, 30) {
+		scn.Revs = scn.Revs[:1]
 		rv := &scn.Revs[0]
 		k := c15GetKinds()
 		g := Pick(r, k.allowed[rv.PType])
@@ -312,10 +486,56 @@ func c15Gen(r *Rng) c15Scn {
 			{K: "rec", R: 0, Active: true, F: c15Faults{Read: -1}},
 		}
 	}
-	// two reconciles of different revisions sharing the cache, run concurrently
+	// a verified revision of an installable package whose object is wiped / re-created by a third
+	// party (or whose cached copy is stale) exactly while it is being installed
+	if scn.Feature && r.Chance(1, 6) {
+		scn.Revs = scn.Revs[:1]
+		rv := &scn.Revs[0]
+		k := c15GetKinds()
+		rv.Docs = []c15Doc{{T: "meta", GVK: c15GoodMeta(rv.PType), Name: "pkg-" + rv.PType, Con: Pick(r, []string{"none", "in"})}}
+		for i, n := 0, r.Range(1, 3); i < n; i++ {
+			g := Pick(r, k.allowed[rv.PType])
+			rv.Docs = append(rv.Docs, c15Doc{T: "obj", GVK: g, Name: c15ObjName(g, i)})
+		}
+		rv.Img, rv.Pre, rv.Never = Pick(r, []string{"annotated", "plain", "multi", "baselast"}), Pick(r, []string{"cold", "warm"}), false
+		scn.Cfgs = []c15Cfg{}
+		if r.Bool() {
+			scn.Cfgs = []c15Cfg{{Name: "cfg-a", Prefixes: []string{c15Registry + "/acme/"}, Verif: "cosign", OK: true}}
+		}
+		clean := c15Faults{Read: -1}
+		env := clean
+		env.Env = Pick(r, []string{"wipe", "recreate", "wipe", "recreate", "touch", "flip"})
+		steps := []c15Step{{K: "sig", R: 0, Active: true, F: clean}}
+		if r.Bool() {
+			steps = append(steps, c15Step{K: "rec", R: 0, Active: true, F: clean})
+		}
+		steps = append(steps, c15Step{K: "rec", R: 0, Active: true, F: env}, c15Step{K: "rec", R: 0, Active: true, F: clean})
+		if r.Bool() {
+			steps = append(steps, c15Step{K: "sig", R: 0, Active: true, F: clean}, c15Step{K: "rec", R: 0, Active: true, F: clean})
+		}
+		scn.Steps = steps
+	}
+	// two reconciles of different revisions sharing the cache, run concurrently. Twins (same
+	// cache entry) only when every interleaving gives the same result: no cache-affecting
+	// fault or deletion anywhere in the history of the twins, entry complete or absent.
+	twinsCalm := !scn.Feature
+	for i := range scn.Steps {
+		st := &scn.Steps[i]
+		if st.K == "rec" && (st.F.Init || st.F.Read >= 0 || st.F.Store != "" || st.F.Get || st.F.Del || st.Deleted || st.F.Env == "recreate") {
+			twinsCalm = false
+		}
+	}
+	for i := range scn.Revs {
+		if p := scn.Revs[i].Pre; p != "cold" && p != "warm" {
+			twinsCalm = false
+		}
+	}
 	for i := 0; i+1 < len(scn.Steps); i++ {
 		a, b := &scn.Steps[i], &scn.Steps[i+1]
 		if a.K == "rec" && b.K == "rec" && a.R != b.R && r.Bool() {
+			if c15CachePath(scn.Revs[a.R].Name) == c15CachePath(scn.Revs[b.R].Name) && !twinsCalm {
+				continue
+			}
 			a.Par = true
 			i++
 		}
@@ -330,9 +550,37 @@ func c15Cls(scn *c15Scn, obs *c15Obs) string {
 	fk := map[string]bool{}
 	est := 0
 	for i, s := range scn.Steps {
-		if s.K == "sig" {
-			fk["sig:"+s.SigCfg] = true
+		if s.K == "cfg" {
+			fk["cfgstep"] = true
 			continue
+		}
+		if s.K == "sig" {
+			fk["sig"] = true
+			if s.SigCfg == "err" {
+				fk["sig:listerr"] = true
+			}
+			if s.F.GetE != "" {
+				fk["sig:getE:"+s.F.GetE] = true
+			}
+			if s.F.Stat != "" {
+				fk["sig:stat"] = true
+			}
+			continue
+		}
+		if s.F.Env != "" {
+			fk["env:"+s.F.Env] = true
+		}
+		if s.F.GetE != "" {
+			fk["getE:"+s.F.GetE] = true
+		}
+		if s.F.Fin != "" {
+			fk["fin:"+s.F.Fin] = true
+		}
+		if s.F.Stat != "" {
+			fk["stat"] = true
+		}
+		if s.F.Est {
+			fk["est:"+s.F.EstC] = true
 		}
 		if s.Par {
 			fk["concurrent"] = true
@@ -353,7 +601,7 @@ func c15Cls(scn *c15Scn, obs *c15Obs) string {
 			fk["del"] = true
 		}
 		if s.F.Upd != "" {
-			fk["upd"] = true
+			fk["upd:"+s.F.Upd] = true
 		}
 		if s.Deleted {
 			fk["deleted"] = true
@@ -376,13 +624,41 @@ func c15Cls(scn *c15Scn, obs *c15Obs) string {
 	}
 	// the dominant aspect of the history
 	fault := "nofault"
-	for _, k := range []string{"concurrent", "read", "store:write", "store:create", "store:close", "get", "init", "del", "upd", "deleted", "inactive", "sig:some", "sig:none", "sig:err"} {
-		if fk[k] {
-			fault = k
-			break
+	keys := c15SortedKeys(fk)
+	for _, pf := range []string{"env:", "getE:", "fin:", "est:", "upd:", "stat", "sig:", "cfgstep", "concurrent", "read", "store:", "get", "init", "del", "deleted", "inactive", "sig"} {
+		for _, k := range keys {
+			if fault == "nofault" && strings.HasPrefix(k, pf) {
+				fault = k
+			}
 		}
 	}
-	return fmt.Sprintf("%s/%s/pre=%s/revs=%d/%s/%s", r0.PType, r0.Img, pre, len(scn.Revs), fault, e)
+	// how the revisions relate: several of one type (one reconciler), versions of one package, twins
+	rel := fmt.Sprintf("revs=%d", len(scn.Revs))
+	if len(scn.Revs) > 1 {
+		same, twin, pkg := 0, false, false
+		for i := 1; i < len(scn.Revs); i++ {
+			if scn.Revs[i].PType == r0.PType {
+				same++
+			}
+			if c15IsTwin(&scn.Revs[0], &scn.Revs[i]) {
+				twin = true
+			}
+			if scn.Revs[i].Name[:4] == r0.Name[:4] && scn.Revs[i].Name != r0.Name {
+				pkg = true
+			}
+		}
+		rel += fmt.Sprintf("/sametype=%d", same)
+		if twin {
+			rel += "/twin"
+		}
+		if pkg {
+			rel += "/samepkg"
+		}
+	}
+	if len(scn.Cfgs) > 0 {
+		rel += fmt.Sprintf("/cfgs=%d", len(scn.Cfgs))
+	}
+	return fmt.Sprintf("%s/%s/pre=%s/%s/%s/%s", r0.PType, r0.Img, pre, rel, fault, e)
 }
 
 // ---------------------------------------------------------------- xpkg build round trip (a differential TEST, not a theorem)
@@ -654,6 +930,8 @@ func c15EmitCls(c *Ctx, scn *c15Scn, cls string) {
 
 func init() {
 	Register("C15", func(c *Ctx) {
+		// every scenario builds OCI images and gzip streams that die with it: collect less often
+		debug.SetGCPercent(400)
 		for _, raw := range c.Corpus {
 			var s c15Scn
 			if err := jsonUnmarshalStrict(raw, &s); err == nil && len(s.Revs) > 0 {
@@ -769,7 +1047,7 @@ func c15Witnesses() []c15Scn {
 	// D7: a Function package that carries a Composition.
 	out = append(out, c15Scn{Kind: "rev", Revs: []c15Rev{{PType: "function", Name: "pkga-function-d7d7d7", Source: "xpkg.example.org/acme/fn:v1.0.0",
 		Docs: []c15Doc{{T: "meta", GVK: "meta.pkg.crossplane.io/v1/Function", Name: "pkg-function", Con: "none"}, {T: "obj", GVK: crd, Name: c15ObjName(crd, 0)}, {T: "obj", GVK: "apiextensions.crossplane.io/v1/Composition", Name: "compositions1.example.org"}},
-		Img: "annotated", Pre: "cold"}},
+		Img:  "annotated", Pre: "cold"}},
 		Steps: []c15Step{{K: "rec", Active: true, F: c15Faults{Read: -1}}}})
 	return out
 }
